@@ -16,7 +16,7 @@ pub fn info_c02() -> PropInfo {
     PropInfo {
         id: "C02",
         level: "exploration",
-        rule: "graph projects f0..f(n-1) (edge i->j = include, or after + run cat with an observation log of the checksum seen), unique head/tail tokens per generation, stale previous-generation outputs planted at every output path. Exhaustive part: every labelled DAG on <=3 files x edge-kind variants x every non-empty requested subset and the directory input x N in {1,2,3} threads x every gate schedule (stateless DFS by re-execution under the controller: begin gate, end gate, coordinator receive). 4 files: labelled DAGs x sampled subsets x random / adversarial fixed-order schedules. 5-8 files: random DAGs under free-running stress with seeded delays and N in {1,2,3,4,8,16}, natural flavour (idle sleeps kept) included. Modes Build and InMemoryBuild. Non-trivial = the graph has at least one edge (a dependency is actually waited for); distinct = distinct (case, schedule trace) hashes.",
+        rule: "graph projects f0..f(n-1) (edge i->j = include, or after + run cat with an observation log of the checksum seen), unique head/tail tokens per generation, stale previous-generation outputs planted at every output path. Exhaustive part: every labelled DAG on <=3 files x edge-kind variants x every non-empty requested subset and the directory input x N in {1,2,3} threads x every gate schedule (stateless DFS by re-execution under the controller: begin gate, end gate, coordinator receive). 4 files: labelled DAGs x sampled subsets x random / adversarial fixed-order schedules. 5-8 files: random DAGs under free-running stress with seeded delays and N in {1,2,3,4,8,16}, natural flavour (idle sleeps kept) included. Modes Build and InMemoryBuild. Non-trivial = the graph has at least one edge (a dependency is actually waited for); distinct = distinct (case, schedule trace) hashes. Later graph variants (counted in the evidence as executions_with_variant_*): spaced (names with an inner blank), no_tail (source ends with its last directive), stale_ext (needed mode over fresh content + extra lines), linked (requested directory of links to the sources), empty_leaves (empty outputs, needed and plain build over stale files), outside (dependencies outside the base directory), stale_link (stale outputs that are links to copies elsewhere), prior (an earlier revision with hand-written files built in the same process and directory first), same_prefix (every directive uses one prefix, text ends each command block).",
         assumptions: &["reference model (sequential, dependency order) for expected bytes", "gate granularity: interleavings inside one task's file operations are reached only by the free-running part", "thread counts above 16 not run"],
         floor: (2_000, 50_000),
         shards: (16, 16),
@@ -29,7 +29,7 @@ pub fn info_c03() -> PropInfo {
     PropInfo {
         id: "C03",
         level: "exploration",
-        rule: "every labelled digraph with self loops on <=3 files (2^9=512 for n=3) x input selections (each non-empty subset by output name / source name / ./ alias / all three at once, the directory, directory + files) x N in {1,2,3} x every gate schedule (DFS); 4-file digraphs sampled with random and fixed-order schedules; variants with files in a sub-directory so that ScanDir tasks take part in the schedule. Monitors: logical deadlock predicate and worker-panic events (T1), at most one completion per file in the event trace (T3), required outputs present and equal to the sequential model on success (T4), per-file marker command executed exactly once. Non-trivial = at least two tasks were in flight at some point; distinct = distinct (case, schedule trace).",
+        rule: "every labelled digraph with self loops on <=3 files (2^9=512 for n=3) x input selections (each non-empty subset by output name / source name / ./ alias / all three at once, the directory, directory + files) x N in {1,2,3} x every gate schedule (DFS); 4-file digraphs sampled with random and fixed-order schedules; variants with files in a sub-directory so that ScanDir tasks take part in the schedule. Monitors: logical deadlock predicate and worker-panic events (T1), at most one completion per file in the event trace (T3), required outputs present and equal to the sequential model on success (T4), per-file marker command executed exactly once. Non-trivial = at least two tasks were in flight at some point; distinct = distinct (case, schedule trace). Later additions: the graph variants listed in C02's rule; the empty input selection in all modes; a failing file (command, include, tag, undecodable source line) among 5-8 files under free-running schedules; CLI runs with RUST_LOG debug/trace (30 s bound); bounded-progress predicates for hangs outside the loop (Drop, spinning after the last poll, a worker stuck in its task).",
         assumptions: &["termination is decided logically by the hooks (no task in flight, every result received, done != total), never by wall-clock", "a non-terminating command is out of domain"],
         floor: (2_000, 50_000),
         shards: (16, 16),
@@ -42,7 +42,7 @@ pub fn info_c05() -> PropInfo {
     PropInfo {
         id: "C05",
         level: "exploration",
-        rule: "same enumeration as C03 (all digraphs with self loops on <=3 files x requested sets x N x DFS schedules; 4 files sampled). Oracle: reachability of a cycle from the requested set computed on the generated graph: (a) reaches a cycle => run must return an error (no success, no deadlock); (b) no cycle reachable => no failure; (c) every required file that cannot reach a cycle equals the sequential model after the run. Non-trivial = the graph contains a cycle; distinct = distinct (case, schedule trace).",
+        rule: "same enumeration as C03 (all digraphs with self loops on <=3 files x requested sets x N x DFS schedules; 4 files sampled). Oracle: reachability of a cycle from the requested set computed on the generated graph: (a) reaches a cycle => run must return an error (no success, no deadlock); (b) no cycle reachable => no failure; (c) every required file that cannot reach a cycle equals the sequential model after the run. Non-trivial = the graph contains a cycle; distinct = distinct (case, schedule trace). Later additions: the graph variants listed in C02's rule; acyclic projects with a failing file that others depend on (the failure must not be reported as a cycle: monitor false-circular); earlier cycle-free revisions built in the same process and directory first.",
         assumptions: &["reference model for bystander bytes", "cycle reachability computed by the harness (gen.rs Graph)"],
         floor: (2_000, 50_000),
         shards: (16, 16),
